@@ -133,10 +133,13 @@ def run(ctx):
         from . import c14
         for ty in ("webauthn::FilteredPublicKeyCredentialParameters", "ctap2::AttestationFormatsPreference"):
             de, vs = c14.find_visit_seq(F, ty)
+            shared = de is not None and vs is None      # a shared visitor behind a helper: summarised from the decoder (see c14)
+            if shared:
+                vs = de
             if not ctx.oblige("C01|drains|%s|anchor" % ty, vs is not None, "anchor missing: hand-written visit_seq of " + ty, cfg=cfg):
                 continue
             from . import loops as L
-            problems, n_loops = L.drains(F, vs)
+            problems, n_loops = L.drains(F, vs, visitor_calls=shared)
             ctx.oblige("C01|drains|" + ty, not problems and n_loops == 1, "%s: %s; the rest of the array would be read as the next request parameter" % (ty, "; ".join(problems[:2]) or "%d loops" % n_loops), cfg=cfg, where=vs["sp"])
         # the documented lossy members are lossy *only* as documented (a name that fits is kept whole, an icon of at most
         # 128 bytes is kept verbatim): the C13 rules for the lossy decoders are a necessary condition of C01 as well
